@@ -99,7 +99,7 @@ func errResult(ret *ssa.Return) (ssa.Value, bool) {
 	if ret == nil || len(ret.Results) == 0 {
 		return nil, false
 	}
-	v := returnedValues(ret)[len(ret.Results)-1]
+	v := ret.Results[len(ret.Results)-1]
 	if !isErrorType(ret.Parent().Signature.Results().At(len(ret.Results) - 1).Type()) {
 		return nil, false
 	}
@@ -185,6 +185,9 @@ func (x *client) ackVerified(ruleID string, only *ssa.Function) {
 			}
 			ret := p.Return()
 			ev, hasErr := errResult(ret)
+			if ev != nil {
+				ev = p.Resolve(ev)
+			}
 			if !hasErr {
 				r.Fail(fmt.Sprintf("%s path#%d", fnName(fn), pi), fn.Pos(), "function reading a reply has no error result")
 				continue
@@ -306,8 +309,8 @@ func (x *client) getReplyRules() {
 	// success returns
 	nSucc := 0
 	var msgLoc string
-	for _, ret := range returnsOf(fn) {
-		ev, _ := errResult(ret)
+	for _, ret := range retEdges(fn) {
+		ev, _ := errResultE(ret)
 		if ev == nil || !isNilConst(ev) {
 			// error return: first result must be nil
 			r.Check(isNilConst(ret.Results[0]), "getReply error return", ret.Pos(), "error xor message", "getReply returns a message together with an error")
@@ -316,7 +319,7 @@ func (x *client) getReplyRules() {
 		nSucc++
 		msgLoc = AddrTerm(ret.Results[0])
 		lit := msgLoc + ".Header.Seq == p1"
-		r.Check(HoldsAt(ret.Block(), lit), "getReply success return", ret.Pos(), "dominated by "+lit, "getReply returns a reply without the "+lit+" test: a reply for another request would be accepted")
+		r.Check(ret.Holds(lit), "getReply success return", ret.Pos(), "dominated by "+lit, "getReply returns a reply without the "+lit+" test: a reply for another request would be accepted")
 	}
 	r.Check(nSucc == 1, "getReply has one success return", fn.Pos(), "", fmt.Sprintf("%d success returns", nSucc))
 	// outer loop re-entry
@@ -410,10 +413,10 @@ func (x *client) getReplyRules() {
 	}
 	// leaving the retry loop without messages is an error
 	okEmpty := false
-	for _, ret := range returnsOf(fn) {
-		for _, g := range GuardLits(ret.Block()) {
+	for _, ret := range retEdges(fn) {
+		for _, g := range ret.Lits() {
 			if strings.HasPrefix(g, "len(") && strings.HasSuffix(g, ") == 0") {
-				ev, _ := errResult(ret)
+				ev, _ := errResultE(ret)
 				okEmpty = ev != nil && !isNilConst(ev) && isNilConst(ret.Results[0])
 			}
 		}
@@ -507,10 +510,10 @@ func (x *client) dataReplies() {
 					Term(c.Common().Args[1]) == "reply#0.Data"
 			}
 			r.Check(okc, "GetStatus decodes the AUDIT_GET reply", fn.Pos(), "FromWireFormat(reply.Data) under Type == AuditGet", "GetStatus decodes a reply that was not checked to be the AUDIT_GET reply of this request")
-			for _, ret := range returnsOf(fn) {
-				ev, _ := errResult(ret)
+			for _, ret := range retEdges(fn) {
+				ev, _ := errResultE(ret)
 				if isNilConst(ev) {
-					ok := len(fw) == 1 && ret.Results[0] == fw[0].Common().Args[0] && HoldsAt(ret.Block(), Term(fw[0].Value())+" == nil")
+					ok := len(fw) == 1 && ret.Results[0] == fw[0].Common().Args[0] && ret.Holds(Term(fw[0].Value())+" == nil")
 					r.Check(ok, "GetStatus success return", ret.Pos(), "returns the decoded status under err == nil", "GetStatus returns success without a successfully decoded status")
 				} else {
 					r.Check(isNilConst(ret.Results[0]), "GetStatus error return", ret.Pos(), "", "GetStatus returns a status together with an error")
@@ -532,10 +535,10 @@ func (x *client) dataReplies() {
 			undo := alias(calls[1].Value(), "reply")
 			done := fmt.Sprintf("reply#0.Header.Type == %s", x.sysc["NLMSG_DONE"])
 			isRule := fmt.Sprintf("reply#0.Header.Type == %d", listRules)
-			for _, ret := range returnsOf(fn) {
-				ev, _ := errResult(ret)
+			for _, ret := range retEdges(fn) {
+				ev, _ := errResultE(ret)
 				if isNilConst(ev) {
-					r.Check(HoldsAt(ret.Block(), done) && HoldsAt(ret.Block(), "reply#1 == nil"), "GetRules success return", ret.Pos(), "only on NLMSG_DONE", "GetRules returns success before NLMSG_DONE")
+					r.Check(ret.Holds(done) && ret.Holds("reply#1 == nil"), "GetRules success return", ret.Pos(), "only on NLMSG_DONE", "GetRules returns success before NLMSG_DONE")
 				} else {
 					r.Check(isNilConst(ret.Results[0]), "GetRules error return", ret.Pos(), "", "GetRules returns rules together with an error")
 				}
@@ -612,7 +615,7 @@ func (x *client) setFunnel(ruleID string) {
 		last := s.Caller.Params[len(s.Caller.Params)-1]
 		r.Check(args[2] == ssa.Value(last) && args[0] == ssa.Value(s.Caller.Params[0]), "set from "+fnName(s.Caller), s.Instr.Pos(), "passes its own WaitMode", fnName(s.Caller)+" does not pass its WaitMode parameter to set()")
 		// and returns set's result unchanged
-		for _, ret := range returnsOf(s.Caller) {
+		for _, ret := range retEdges(s.Caller) {
 			r.Check(ret.Results[0] == s.Instr.(ssa.CallInstruction).Value(), "result of set returned by "+fnName(s.Caller), ret.Pos(), "", fnName(s.Caller)+" does not return set()'s verdict")
 		}
 	}
@@ -974,9 +977,61 @@ func propC18(r *Run, w *World) {
 				msgLoc = AddrTerm(st.Addr)
 			}
 		}
-		lenSt := storesTo(fn, msgLoc+".Header.Len")
-		okLen := len(lenSt) == 1 && Term(lenSt[0].Val) == "uint32(("+szc+" + len("+msgLoc+".Data)))"
-		r.Check(okLen, "Header.Len", fn.Pos(), "uint32(SizeofNlMsghdr + len(msg.Data))", "Header.Len is not SizeofNlMsghdr + len(Data)")
+		// serialize is straight-line, so the content of a local at a program point is given by
+		// the stores before it: a store to the location (or to an enclosing one) sets its base,
+		// later stores to its parts override fields. The message parameter may or may not be
+		// spilled to a local (it is when a field of it is assigned); both spell p0.
+		norm := func(t string) string {
+			if msgLoc != "" {
+				t = strings.ReplaceAll(t, msgLoc, "p0")
+			}
+			return t
+		}
+		var content func(loc string, before ssa.Instruction, depth int) (string, map[string]string)
+		content = func(loc string, before ssa.Instruction, depth int) (string, map[string]string) {
+			base := ""
+			over := map[string]string{}
+			var baseSt *ssa.Store
+			for _, st := range storesOf(fn) {
+				if before != nil && orderInBlock(st) >= orderInBlock(before) {
+					continue
+				}
+				a := AddrTerm(st.Addr)
+				switch {
+				case a == loc:
+					base, over, baseSt = Term(st.Val), map[string]string{}, st
+				case strings.HasPrefix(loc, a+"."):
+					base, over, baseSt = Term(st.Val)+loc[len(a):], map[string]string{}, st
+				case strings.HasPrefix(a, loc+"."):
+					over[a[len(loc)+1:]] = norm(Term(st.Val))
+				}
+			}
+			// the base may itself be a local whose content is known at the time it was copied
+			if base != "" && depth < 4 && strings.HasPrefix(base, "local.") {
+				b2, o2 := content(base, baseSt, depth+1)
+				if b2 != "" {
+					for k, v := range over {
+						o2[k] = v
+					}
+					return b2, o2
+				}
+			}
+			return norm(base), over
+		}
+		valueAt := func(v ssa.Value, before ssa.Instruction) string {
+			// a load of a local field: the value last stored there
+			if ld, ok := v.(*ssa.UnOp); ok && ld.Op == token.MUL {
+				t := AddrTerm(ld.X)
+				if i := strings.LastIndex(t, "."); i > 0 {
+					_, over := content(t[:i], before, 0)
+					if val, ok := over[t[i+1:]]; ok {
+						return val
+					}
+				}
+			}
+			return norm(Term(v))
+		}
+		wantLen := "uint32((" + szc + " + len(p0.Data)))"
 		var mk *ssa.MakeSlice
 		nMk := 0
 		instrsOf(fn, func(in ssa.Instruction) {
@@ -985,15 +1040,24 @@ func propC18(r *Run, w *World) {
 				nMk++
 			}
 		})
-		okMk := nMk == 1 && Term(mk.Len) == msgLoc+".Header.Len" && len(lenSt) == 1 && orderInBlock(lenSt[0]) < orderInBlock(mk)
-		r.Check(okMk, "buffer length", fn.Pos(), "make([]byte, msg.Header.Len) after Len is set", "the buffer is not allocated with Header.Len bytes (after Len was computed)")
+		okMk := nMk == 1 && valueAt(mk.Len, mk) == wantLen
+		r.Check(okMk, "buffer length", fn.Pos(), "make([]byte, SizeofNlMsghdr + len(msg.Data))", "the buffer is not allocated with SizeofNlMsghdr + len(Data) bytes")
 		if mk != nil {
 			undo := alias(mk, "b")
 			hs := storesTo(fn, "*syscall.NlMsghdr(unsafe.Pointer(&b[0]))")
-			okH := len(hs) == 1 && Term(hs[0].Val) == msgLoc+".Header" && len(lenSt) == 1 && orderInBlock(lenSt[0]) < orderInBlock(hs[0])
-			r.Check(okH, "header at offset 0", fn.Pos(), "*(*NlMsghdr)(&b[0]) = msg.Header after Len is set", "the header is not written at offset 0 from msg.Header after Len was set")
+			okH, okLen := false, false
+			if len(hs) == 1 {
+				// the header value written: a load of a local whose content is msg.Header with Len overridden
+				if ld, ok := hs[0].Val.(*ssa.UnOp); ok && ld.Op == token.MUL {
+					base, over := content(AddrTerm(ld.X), hs[0], 0)
+					okH = base == "p0.Header" && len(over) <= 1
+					okLen = over["Len"] == wantLen
+				}
+			}
+			r.Check(okLen, "Header.Len", fn.Pos(), "uint32(SizeofNlMsghdr + len(msg.Data))", "the Len field of the header that is written is not SizeofNlMsghdr + len(Data)")
+			r.Check(okH && okLen, "header at offset 0", fn.Pos(), "*(*NlMsghdr)(&b[0]) = msg.Header with Len set", "the header written at offset 0 is not msg.Header with only Len replaced")
 			cps := callsNamedIn(fn, "copy")
-			okC := len(cps) == 1 && Term(cps[0].Common().Args[0]) == "b["+szc+":]" && Term(cps[0].Common().Args[1]) == msgLoc+".Data"
+			okC := len(cps) == 1 && Term(cps[0].Common().Args[0]) == "b["+szc+":]" && norm(Term(cps[0].Common().Args[1])) == "p0.Data"
 			r.Check(okC, "payload copy", fn.Pos(), "copy(b[SizeofNlMsghdr:], msg.Data)", "the payload is not copied to b[SizeofNlMsghdr:] from msg.Data")
 			rets := returnsOf(fn)
 			r.Check(len(rets) == 1 && rets[0].Results[0] == ssa.Value(mk), "returns the buffer", fn.Pos(), "", "serialize does not return the buffer it filled")
@@ -1031,7 +1095,7 @@ func propC18(r *Run, w *World) {
 					orderInBlock(sts[0]) < orderInBlock(sers[0].(ssa.Instruction)) && Term(sends[0].Common().Args[0]) == "p0.fd"
 			}
 			r.Check(okS, "sends serialize(msg)", fn.Pos(), "after Seq is stored", "what is sent is not serialize(msg) taken after the sequence was stored")
-			for _, ret := range returnsOf(fn) {
+			for _, ret := range retEdges(fn) {
 				// returned sequence: load of msg.Header.Seq after the store, or seq itself
 				t := Term(ret.Results[0])
 				r.Check(t == "seq" || t == msgLoc+".Header.Seq", "returns the sequence", ret.Pos(), "", "Send returns "+t+", not the sequence it used")
@@ -1093,12 +1157,12 @@ func propC18(r *Run, w *World) {
 				r.Check(Term(parser.Call.Args[0]) == "p0.readBuf[:rf#0]", "parser input", parser.Pos(), "readBuf[:nr]", "the parser is given "+Term(parser.Call.Args[0])+", not readBuf[:nr]")
 				defer alias(parser, "parsed")()
 			}
-			for _, ret := range returnsOf(fn) {
-				ev, _ := errResult(ret)
+			for _, ret := range retEdges(fn) {
+				ev, _ := errResultE(ret)
 				if isNilConst(ev) {
 					var missing []string
 					for _, l := range append(need, "parsed#1 == nil") {
-						if !HoldsAt(ret.Block(), l) {
+						if !ret.Holds(l) {
 							missing = append(missing, l)
 						}
 					}
@@ -1119,6 +1183,9 @@ func propC18(r *Run, w *World) {
 			ret := p.Return()
 			key := fmt.Sprintf("parseNetlinkAuditMessage path#%d [%s]", i, strings.Join(p.Lits(), " ∧ "))
 			ev, _ := errResult(ret)
+			if ev != nil {
+				ev = p.Resolve(ev)
+			}
 			switch {
 			case p.HasLit("len(p0) < " + hdr):
 				r.Check(!isNilConst(ev) && isNilConst(ret.Results[0]) && len(p.Events) <= 3, key, ret.Pos(), "short buffer → error, nothing read", "a buffer shorter than a netlink header is not rejected")
